@@ -1,5 +1,6 @@
 import GateryModel.C15.Spec
 import GateryModel.C15.Gray
+import GateryModel.C15.Array
 /-!
 Driver for C15: reads the harness protocol (harness/c15.cpp) on stdin.
 
@@ -33,6 +34,9 @@ structure Case where
   q : QState String := {}
   modelOk : Bool := true      -- false after the first DIFF of the case
   dual : Bool := false
+  arr : Bool := false         -- case drives scl::FifoArray
+  ast : ArrState String := []
+  aqs : List (List String) := []
   gray : Bool := false        -- case ties grayEncode/grayDecode at width `w`
   stream : Bool := false      -- case drives strm::fifo (ready/valid wrapper)
   fall : Bool := false
@@ -79,6 +83,13 @@ def startCase (d : D) (toks : List String) (lineNo : Nat) : IO D := do
   let lat := (parseLat (get "lat")).getD .dontCare
   let model := mkCfg minD dual lat
   let mut d := { d with cases := d.cases + 1 }
+  if field toks "mode" == some "array" then
+    let kf := (get "kf").toNat!
+    let c : Cfg := { k := (get "k").toNat!, lw := 1, lr := 1 }
+    let x := String.ofList (List.replicate w 'x')
+    return { d with hist := ((d.hist.bump "array").bump s!"array_fifos{2^kf}").bump s!"array_depth{c.N}",
+                    cs := { id := id, cfg := c, w := w, active := true, arr := true, ast := arrInit kf c x,
+                            aqs := List.replicate (2^kf) [], line0 := lineNo } }
   if field toks "mode" == some "gray" then
     return { d with hist := (d.hist.bump "gray").bump s!"gray_w{w}", cs := { id := id, w := w, active := true, gray := true, line0 := lineNo } }
   if field toks "mode" == some "stream" then
@@ -244,6 +255,53 @@ def doGray (d : D) (toks : List String) (lineNo : Nat) : IO D := do
     IO.println s!"DIFF case={cs.id} line={lineNo} what=unparsed-event"
     return { d with diffs := d.diffs + 1 }
 
+/-- `a <rst> <push> <pushSel> <data> <pop> <popSel> | <full> <empty> <size> <peek>` -/
+def doArray (d : D) (toks : List String) (lineNo : Nat) : IO D := do
+  let cs := d.cs
+  if !cs.active then return d
+  match toks with
+  | [_, rst, push, pushSel, data, pop, popSel, _, full, empty, size, peek] =>
+    let c := cs.cfg
+    let x := String.ofList (List.replicate cs.w 'x')
+    let e : AEv String := { rst := b rst, push := b push, pushSel := pushSel.toNat!, data := data, pop := b pop, popSel := popSel.toNat! }
+    let oi : AOut String := { full := b full, empty := b empty, size := binVal size, peek := peek }
+    let mut d := { d with events := d.events + 1 }
+    let mut cs := cs
+    if cs.modelOk then
+      let om := arrOutputs c x cs.ast e
+      -- peek is a don't-care while empty
+      let same := bs om.full == full && bs om.empty == empty && bitsOf om.size (c.k+1) == size && (om.empty || om.peek == peek)
+      if !same then
+        IO.println s!"DIFF case={cs.id} line={lineNo} event={cs.events} what=array-outputs model=[{bs om.full} {bs om.empty} {bitsOf om.size (c.k+1)} {om.peek}] impl=[{full} {empty} {size} {peek}]"
+        d := { d with diffs := d.diffs + 1 }
+        cs := { cs with modelOk := false }
+      else if !e.rst then
+        cs := { cs with ast := arrStep c cs.ast e }
+    let fp := ((cs.aqs[e.pushSel]?).getD []).length
+    let fq := ((cs.aqs[e.popSel]?).getD []).length
+    let (viol, qs') := if cs.specOk then acheck c.N cs.aqs e oi else ([], cs.aqs)
+    for v in viol do
+      IO.println s!"PROPFAIL case={cs.id} line={lineNo} event={cs.events} kind={v} fillPushSel={fp} fillPopSel={fq} N={c.N} ev=[{" ".intercalate toks}]"
+      d := { d with propfails := d.propfails + 1 }
+    if !viol.isEmpty then cs := { cs with specOk := false }
+    let mut cov := d.cov
+    if e.rst then cov := cov.bump "reset_events"
+    else
+      cov := cov.bump "array_cycles"
+      if e.pushSel != e.popSel then cov := cov.bump "array_selectors_differ"
+      if e.push && !oi.full then cov := cov.bump "array_accepted"
+      if e.pop && !oi.empty then cov := cov.bump "array_yielded"
+      if e.push && fp == c.N then cov := cov.bump "array_push_attempt_at_capacity"
+      if e.push && fp == c.N && e.pushSel != e.popSel && fq != c.N then cov := cov.bump "array_push_at_capacity_other_fifo_popsel"
+      if e.pop && fq == 0 then cov := cov.bump "array_pop_attempt_at_none"
+      if e.pop && fq == 0 && e.pushSel != e.popSel && fp != 0 then cov := cov.bump "array_pop_at_none_other_fifo_pushsel"
+      if e.push && e.pop && e.pushSel == e.popSel then cov := cov.bump "array_push_pop_same_fifo"
+    d := { d with cov := cov }
+    return { d with cs := { cs with aqs := qs', events := cs.events + 1 } }
+  | _ =>
+    IO.println s!"DIFF case={cs.id} line={lineNo} what=unparsed-event"
+    return { d with diffs := d.diffs + 1 }
+
 partial def loop (h : IO.FS.Stream) (d : D) (lineNo : Nat) : IO D := do
   let line ← h.getLine
   if line.isEmpty then return d
@@ -255,6 +313,7 @@ partial def loop (h : IO.FS.Stream) (d : D) (lineNo : Nat) : IO D := do
   | "t" :: _ => loop h (← doEvent d toks lineNo) (lineNo + 1)
   | "s" :: _ => loop h (← doStreamEvent d toks lineNo) (lineNo + 1)
   | "g" :: _ => loop h (← doGray d toks lineNo) (lineNo + 1)
+  | "a" :: _ => loop h (← doArray d toks lineNo) (lineNo + 1)
   | "abort" :: rest =>
     IO.println s!"DIFF case={d.cs.id} line={lineNo} what=harness-abort msg=[{" ".intercalate rest}]"
     loop h { d with diffs := d.diffs + 1 } (lineNo + 1)
